@@ -143,13 +143,13 @@ func runFixturesImpl(root string) error {
 		re   string
 		want bool
 	}{
-		{`^[A-Za-z][A-Za-z0-9_ (),.]*$`, false},                               // comma and parentheses anywhere
-		{`^[A-Za-z][A-Za-z0-9_ .]*(\([0-9 ,]*\)[A-Za-z0-9_ .]*)*$`, true},       // numeric groups only
-		{`^[A-Za-z_][A-Za-z0-9_]*$`, true},                                    // identifiers
-		{`^[A-Z]+(\([0-9]+\))?`, false},                                       // no end anchor
-		{`^[A-Z]+\(\(\(\(\([0-9]\)\)\)\)\)$`, false},                           // deeper than the automaton counts
-		{`^[A-Z]+(\([0-9]+(,[0-9]+)?\))?( [A-Z]+)*$`, true},                   // one optional group, then words
-		{`^[A-Z]+\)$`, false},                                                 // closes what it did not open
+		{`^[A-Za-z][A-Za-z0-9_ (),.]*$`, false},                           // comma and parentheses anywhere
+		{`^[A-Za-z][A-Za-z0-9_ .]*(\([0-9 ,]*\)[A-Za-z0-9_ .]*)*$`, true}, // numeric groups only
+		{`^[A-Za-z_][A-Za-z0-9_]*$`, true},                                // identifiers
+		{`^[A-Z]+(\([0-9]+\))?`, false},                                   // no end anchor
+		{`^[A-Z]+\(\(\(\(\([0-9]\)\)\)\)\)$`, false},                      // deeper than the automaton counts
+		{`^[A-Z]+(\([0-9]+(,[0-9]+)?\))?( [A-Z]+)*$`, true},               // one optional group, then words
+		{`^[A-Z]+\)$`, false},                                             // closes what it did not open
 	} {
 		got, why := regexIncludedIn(tc.re, ddlFragmentDFA())
 		if got != tc.want {
